@@ -39,15 +39,16 @@ fn level(s: &str) -> Consistency {
 }
 
 fn layout_map(layout: &Value) -> BTreeMap<Cow<'static, str>, Nodes> {
+    // layout: per data centre the list of member indexes (empty = data centre absent)
     let mut m = BTreeMap::new();
-    for (d, size) in layout.as_array().unwrap().iter().enumerate() {
-        let size = size.as_u64().unwrap();
-        if size == 0 {
+    for (d, members) in layout.as_array().unwrap().iter().enumerate() {
+        let members = members.as_array().unwrap();
+        if members.is_empty() {
             continue;
         }
         let mut nodes = Nodes::new();
-        for i in 1..=size {
-            nodes.push(addr(d as u64 + 1, i));
+        for i in members {
+            nodes.push(addr(d as u64 + 1, i.as_u64().unwrap()));
         }
         m.insert(Cow::Owned(format!("dc{}", d + 1)), nodes);
     }
